@@ -266,6 +266,7 @@ def run(ctx) -> None:
     check_inner_bound_merge_complete(ctx, "C08.R6")
     check_spec_recomputation_inputs(ctx, "C08.R9")
     check_scope_recomputation_inputs(ctx, "C08.R9")
+    check_validation_read_only(ctx, "C08.R9")
     # 'no narrowing' (None) is what "**" and an unset select without a graph selection mean — an explicit list of names
     # is a narrowing even when it names every output (nodes no output depends on, with their private inputs, drop out
     # of the scope and of the reported spec): under 'select was given and is not "**"' no return of the resolver is None
@@ -427,6 +428,21 @@ def check_spec_recomputation_inputs(ctx, rule: str) -> None:
                     diffs.append(f"{k}: '{src(b[k])}' (Graph.inputs passes '.{attr_of(ref[k])}')")
         ok = not diffs
         rep.add(rule, f"{f.qname}:compute_input_spec-arguments", ok, f"{f.module.rel}:{c.lineno}", "recomputation receives the graph's own nodes, nx graph, direct bindings and entry points" if ok else f"the specification is recomputed from different state than the cached one — {'; '.join(diffs)}: e.g. the merged inputs.bound contains bindings of nested graphs that are outside a narrower selection, so an omitted required input is accepted")
+
+
+def check_validation_read_only(ctx, rule: str) -> None:
+    """Validation has no write or mutation effect on the graph it validates against (effects engine, followed through
+    call results that alias the graph's cached input spec)."""
+    db, rep = ctx.db, ctx.rep
+    # validation reads the reported specification, it never writes it: what one run was given must not end up in the
+    # graph's cached input spec (the next run would find its required inputs 'provided' and be accepted without them)
+    from sa.effects import Effects, fmt_effect
+
+    E9 = Effects(db)
+    vi9 = db.func("runners._shared.validation.validate_inputs")
+    gp9 = (vi9.positional_params + ["graph"])[0]
+    ws9 = [e for e in E9.writes(vi9, gp9, include_unknown=False) if not (e.kind == "write" and len(e.path) == 1 and "via property hypergraph.graph.core.Graph." in e.detail)]
+    rep.add(rule, f"{vi9.qname}:read-only-on-graph", not ws9, vi9.loc(), "validation has no write or mutation effect on the graph or its cached input spec" if not ws9 else f"validation changes the graph it validates against: {fmt_effect(ws9[0])} — run-time values accumulate in graph.inputs.bound, and a later run that omits a required input is accepted (and silently reuses the earlier value)")
 
 
 def check_scope_recomputation_inputs(ctx, rule: str) -> None:
